@@ -37,10 +37,15 @@ Lemmas: `Lemmas/FecHist` (horizon, invariant), `FecHistTrack` (ghost of one grou
                             every call on a packet of `G` returns `[]` — so over the whole history the decoder emits for `G`
                             exactly the data packets that were not among the first `d` distinct ones, each once
                             (`C07_missing_once`).  Automatic when `p < d` and the network does not duplicate.
-* `C07_hist_window`        corollary: fresh decoder, packets of at most `maxShardSets + 1 = 4` consecutive groups interleaved
-                            arbitrarily: no group is ever forgotten — up to its `d`-th distinct packet the output of every
-                            call is determined by the distinct packets so far (`[]`, then exactly the absent data); quiet
+* `C07_hist_no_forget`     corollary: fresh decoder, a history in which every group that occurs stays within the horizon:
+                            no group is ever forgotten — up to its `d`-th distinct packet the output of every call is
+                            determined by the distinct packets so far (`[]`, then exactly the absent data); quiet
                             afterwards (under the multiplicity hypothesis); nothing else is ever emitted (`C07_dec_sound`).
+* `C07_hist_window`        its hypothesis holds for packets of at most `maxShardSets + 1 = 4` consecutive groups interleaved
+                            arbitrarily (not across the 2^32 wrap) …
+* `C07_hist_window_wrap`   … and for THREE consecutive groups across the id wrap (`L−2, L−1, 0` or `L−1, 0, 1`); sharp: seen
+                            from group 1 the group `L−2` is not alive, for every ratio (ages across the wrap are larger by
+                            `2^32 − paws ∈ [1, n]`).
 * `C07_hist_forgotten`     sharpness (kernel-checked run): one packet of the group `maxShardSets + 1` ahead makes the decoder
                             forget group 0 — its `d`-th distinct packet recovers nothing; `maxShardSets` ahead it recovers.
 * `C07_refill_reemits_*`   OBSERVATION (kernel-checked runs, replayed on the real code, notes/C07.md): the completed shard
@@ -49,11 +54,11 @@ Lemmas: `Lemmas/FecHist` (horizon, invariant), `FecHistTrack` (ghost of one grou
                             data that was already delivered is emitted again.  Not a violation of C07 (everything emitted
                             is an original data packet of that group; KCP drops the repeat by `sn`), but the reason why
                             `C07_hist_once` needs its multiplicity hypothesis.
-Not proved here: a window corollary ACROSS the 2^32 wrap (there the horizon is one group shorter, notes/C07.md);
-`C07_hist_any_k` itself covers the wrap, `within` being stated with the signed age.
+`C07_hist_any_k` covers the wrap as it stands, `within` being stated with the signed age.
 -/
 import KcpVerif.Props.C07Field
 import KcpVerif.Lemmas.FecHistMain
+import KcpVerif.Lemmas.FecHistWrap
 
 namespace KcpVerif.Props
 open KcpVerif.Gen KcpVerif.Fec KcpVerif.AutoTune KcpVerif.Lemmas.FecSpec
@@ -294,11 +299,21 @@ theorem C07_hist_once {C : CodecNew} (hC : Lawful C) (grp : FecDec.Family) {G : 
       · rw [List.mem_singleton] at h; exact h ▸ hgenj)
     hgenr hempty hfew
 
-/-! ## the common case: a window of `maxShardSets + 1` consecutive groups -/
+/-! ## the common case: a few consecutive groups, interleaved arbitrarily -/
 
-/-- **packets of at most `maxShardSets + 1` consecutive groups, interleaved arbitrarily**, into a
-    fresh decoder: all shard ids of the history lie in `b … b + maxShardSets` (not across the 2^32
-    wrap).  Then no group is ever forgotten:
+/-- a successful `Decoder.new` has an accepted ratio -/
+theorem C07_new_range {C : CodecNew} {d p : Nat} {dec : Decoder} (h : Decoder.new C d p = some dec) :
+    0 < d + p ∧ d + p ≤ 256 := by
+  unfold Decoder.new at h
+  split at h
+  · cases h
+  · rename_i hr
+    omega
+
+/-- **no group is forgotten while every group stays within the horizon.**  A fresh decoder is fed a
+    history of genuine packets in which every group that occurs is within the horizon throughout
+    (`within … hist` for the shard id of every packet — decidable; `C07_hist_window` and
+    `C07_hist_window_wrap` give the two standard sufficient conditions).  Then:
     (1) for every position of the history holding a packet `j` of a group `G` that has had fewer than
         `d` distinct packets before it (`gIdx`), the decoder holds exactly those distinct packets and
         the call returns `[]`, or — when `j` is new and the `d`-th — exactly the zero-padded bodies of
@@ -308,11 +323,10 @@ theorem C07_hist_once {C : CodecNew} (hC : Lawful C) (grp : FecDec.Family) {G : 
     (2) after that call, as long as fewer than `d` packets of `G` follow, every call on a packet of
         `G` returns `[]`;
     (3) nothing else is ever emitted (`C07_dec_sound`). -/
-theorem C07_hist_window {C : CodecNew} (hC : Lawful C) (grp : FecDec.Family) (d p : Nat)
+theorem C07_hist_no_forget {C : CodecNew} (hC : Lawful C) (grp : FecDec.Family) (d p : Nat)
     (dec : Decoder) (hnew : Decoder.new C d p = some dec) (hist : List Bytes)
-    (hgen : ∀ q ∈ hist, FecDec.GenuinePkt C grp d p q) (b : Nat)
-    (hb : (b + maxShardSets) * (d + p) < 2 ^ 32)
-    (hwin : ∀ q ∈ hist, FecHist.InWin b (FecHist.sidOf (d + p) q)) :
+    (hgen : ∀ q ∈ hist, FecDec.GenuinePkt C grp d p q)
+    (hW : ∀ q ∈ hist, FecHist.within (d + p) (FecHist.sidOf (d + p) q) none false hist = true) :
     (∀ (G : Group) (a rest : List Bytes) (j : Nat), grp (G.base / u32 G.n) = some G → G.WF →
       G.d = d → G.p = p → j < G.n → hist = a ++ G.packet C j :: rest →
       (FecHist.gIdx G.n (G.base / u32 G.n) [] a).length < G.d →
@@ -349,19 +363,11 @@ theorem C07_hist_window {C : CodecNew} (hC : Lawful C) (grp : FecDec.Family) (d 
       (∀ q ∈ a, FecDec.GenuinePkt C grp G.d G.p q) := by
     intro G a rest j hG hGd hGp hj hsplit
     have hn : G.n = d + p := by unfold Group.n; rw [hGd, hGp]
-    have hn0 : 0 < G.n := FecDec.n_pos hG
-    have hn256 : G.n ≤ 256 := FecDec.n_le hG
     have hjin : G.packet C j ∈ hist := by rw [hsplit]; simp
-    have hg : FecHist.InWin b (G.base / u32 G.n) := by
-      have := hwin _ hjin
-      rw [← hn, FecHist.sidOf_packet hG j hj] at this
-      exact this
     refine ⟨hn, ?_, ?_⟩
-    · apply FecHist.window_within hn0 hn256 b (by rw [hn]; exact hb) _ hg
-      intro q hq
-      have := hwin q (by rw [hsplit]; exact List.mem_append_left _ hq)
-      rw [← hn] at this
-      exact this
+    · have := hW _ hjin
+      rw [← hn, FecHist.sidOf_packet hG j hj, hsplit] at this
+      exact FecHist.within_append _ _ _ _ _ _ this
     · intro q hq
       rw [hGd, hGp]
       exact hgen q (by rw [hsplit]; exact List.mem_append_left _ hq)
@@ -388,6 +394,32 @@ theorem C07_hist_window {C : CodecNew} (hC : Lawful C) (grp : FecDec.Family) (d 
       j hj hnot (r1 ++ G.packet C i :: r2) hgenr hfew r1 r2 i rfl hi
     simpa only [List.nil_append, List.append_assoc, List.singleton_append] using this
   · exact C07_dec_sound hC grp d p dec hnew hist hgen
+
+/-- **packets of at most `maxShardSets + 1 = 4` consecutive groups, interleaved arbitrarily**, into a
+    fresh decoder: all shard ids of the history lie in `b … b + maxShardSets` (not across the 2^32
+    wrap).  Then every group of the history is within the horizon throughout — the hypothesis of
+    `C07_hist_no_forget`, whose three conclusions follow: no group is ever forgotten. -/
+theorem C07_hist_window {C : CodecNew} (d p : Nat)
+    (dec : Decoder) (hnew : Decoder.new C d p = some dec) (hist : List Bytes) (b : Nat)
+    (hb : (b + maxShardSets) * (d + p) < 2 ^ 32)
+    (hwin : ∀ q ∈ hist, FecHist.InWin b (FecHist.sidOf (d + p) q)) :
+    ∀ q ∈ hist, FecHist.within (d + p) (FecHist.sidOf (d + p) q) none false hist = true :=
+  fun q hq => FecHist.window_within (C07_new_range hnew).1 (C07_new_range hnew).2 b hb _ (hwin q hq)
+    hist hwin
+
+/-- **across the id wrap the guaranteed window is THREE consecutive groups** (`L = paws / n` ids;
+    the groups `L−2, L−1, 0, 1` sit at positions 0 … 3 and the history uses positions
+    `s0 … s0 + 2`): seen across the wrap every age is larger by `2^32 − paws ∈ [1, n]`.  Sharp: seen
+    from group 1 the group `L−2` (three behind) is NOT alive, for every ratio. -/
+theorem C07_hist_window_wrap {C : CodecNew} (d p : Nat)
+    (dec : Decoder) (hnew : Decoder.new C d p = some dec) (hist : List Bytes) (s0 : Nat)
+    (hwin : ∀ q ∈ hist, FecHist.InWrap (d + p) s0 (FecHist.sidOf (d + p) q)) :
+    (∀ q ∈ hist, FecHist.within (d + p) (FecHist.sidOf (d + p) q) none false hist = true) ∧
+    (∀ x y : BitVec 32, x.toNat = 1 → y.toNat + 2 = FecHist.idCount (d + p) →
+      FecHist.alive (d + p) x y = false) :=
+  ⟨fun q hq => FecHist.within_wrap (C07_new_range hnew).1 (C07_new_range hnew).2 s0 _ (hwin q hq)
+    hist hwin,
+   fun x y hx hy => FecHist.wrap_sharp (C07_new_range hnew).1 (C07_new_range hnew).2 x y hx hy⟩
 
 /-! ## the executable code: no hypothesis about the codec -/
 
@@ -435,15 +467,14 @@ theorem C07_hist_once_rsNew (grp : FecDec.Family) {G : Group}
   C07_hist_once C07_rsNew_lawful grp hG hgrp dec hI hd hp hheld h0 seg hgen0 hgen hpre hhor hcount
     j hj hnot rest hgenr hfew
 
-/-- `C07_hist_window` for the executable code, parts (1) and (3) at the completing packet: inside a
-    window of `maxShardSets + 1` consecutive groups, the call that brings the `d`-th distinct packet
-    of a group returns exactly the payloads of the absent data packets, and everything ever
-    returned is an original data packet -/
-theorem C07_hist_window_rsNew (grp : FecDec.Family) (d p : Nat)
+/-- `C07_hist_no_forget` for the executable code, parts (1) and (3) at the completing packet: while
+    every group stays within the horizon (e.g. `C07_hist_window`, `C07_hist_window_wrap`), the call
+    that brings the `d`-th distinct packet of a group returns exactly the payloads of the absent
+    data packets, and everything ever returned is an original data packet -/
+theorem C07_hist_no_forget_rsNew (grp : FecDec.Family) (d p : Nat)
     (dec : Decoder) (hnew : Decoder.new rsNew d p = some dec) (hist : List Bytes)
-    (hgen : ∀ q ∈ hist, FecDec.GenuinePkt rsNew grp d p q) (b : Nat)
-    (hb : (b + maxShardSets) * (d + p) < 2 ^ 32)
-    (hwin : ∀ q ∈ hist, FecHist.InWin b (FecHist.sidOf (d + p) q)) :
+    (hgen : ∀ q ∈ hist, FecDec.GenuinePkt rsNew grp d p q)
+    (hW : ∀ q ∈ hist, FecHist.within (d + p) (FecHist.sidOf (d + p) q) none false hist = true) :
     (∀ (G : Group) (a rest : List Bytes) (j : Nat), grp (G.base / u32 G.n) = some G → G.WF →
       G.d = d → G.p = p → j < G.n → hist = a ++ G.packet rsNew j :: rest →
       (FecHist.gIdx G.n (G.base / u32 G.n) [] a).length + 1 = G.d →
@@ -454,7 +485,7 @@ theorem C07_hist_window_rsNew (grp : FecDec.Family) (d p : Nat)
       ∃ G : Group, grp (G.base / u32 G.n) = some G ∧ G.WF ∧ G.d = d ∧ G.p = p ∧
         (∃ j, j < G.n ∧ G.packet rsNew j ∈ hist) ∧
         ∃ k, k < G.d ∧ r = pad G.maxLen (G.bodies.getD k []) ∧ trim r = some (G.payloads.getD k [])) := by
-  obtain ⟨h1, _, h3⟩ := C07_hist_window C07_rsNew_lawful grp d p dec hnew hist hgen b hb hwin
+  obtain ⟨h1, _, h3⟩ := C07_hist_no_forget C07_rsNew_lawful grp d p dec hnew hist hgen hW
   refine ⟨?_, h3⟩
   intro G a rest j hgrp hG hGd hGp hj hsplit hcount hnot
   have := (h1 G a rest j hgrp hG hGd hGp hj hsplit (by omega)).2.2
@@ -540,7 +571,15 @@ example :
     ((FecDec.feed rsNew (fresh rsNew 2 1)
         [a0.packet rsNew 2, a3.packet rsNew 0, a0.packet rsNew 2]).1.decode rsNew
       (a0.packet rsNew 0)).recovered.map trim = [some [4]] := by
-  have h := (C07_hist_window_rsNew fam 2 1 (fresh rsNew 2 1) rfl
+  have hW := C07_hist_window (C := rsNew) 2 1 (fresh rsNew 2 1) rfl
+    [a0.packet rsNew 2, a3.packet rsNew 0, a0.packet rsNew 2, a0.packet rsNew 0]
+    0 (by decide)
+    (by
+      intro q hq
+      simp only [List.mem_cons, List.mem_nil_iff, or_false] at hq
+      unfold FecHist.InWin
+      rcases hq with rfl | rfl | rfl | rfl <;> decide +kernel)
+  have h := (C07_hist_no_forget_rsNew fam 2 1 (fresh rsNew 2 1) rfl
     [a0.packet rsNew 2, a3.packet rsNew 0, a0.packet rsNew 2, a0.packet rsNew 0]
     (by
       intro q hq
@@ -550,13 +589,34 @@ example :
       · exact gen3 0 (by decide)
       · exact gen0 2 (by decide)
       · exact gen0 0 (by decide))
-    0 (by decide)
+    hW).1 a0
+    [a0.packet rsNew 2, a3.packet rsNew 0, a0.packet rsNew 2] [] 0 fam0 a0_wf rfl rfl (by decide) rfl
+    (by decide +kernel) (by decide +kernel)
+  rw [h]; decide +kernel
+
+-- `C07_hist_window_wrap`: the last group before the wrap (`z`, id `L − 1`) and group 0, interleaved:
+-- `newestShardId` steps across the wrap to 0 and `z` is still recovered
+example :
+    ((FecDec.feed rsNew (fresh rsNew 2 1) [z.packet rsNew 0, a0.packet rsNew 0]).1.decode rsNew
+      (z.packet rsNew 2)).recovered.map trim = [some [2, 3]] := by
+  have hgen : ∀ q ∈ [z.packet rsNew 0, a0.packet rsNew 0, z.packet rsNew 2],
+      FecDec.GenuinePkt rsNew famW 2 1 q := by
+    intro q hq
+    simp only [List.mem_cons, List.mem_nil_iff, or_false] at hq
+    rcases hq with rfl | rfl | rfl
+    · exact genz 0 (by decide)
+    · exact genW0 0 (by decide)
+    · exact genz 2 (by decide)
+  have hW := (C07_hist_window_wrap (C := rsNew) 2 1 (fresh rsNew 2 1) rfl
+    [z.packet rsNew 0, a0.packet rsNew 0, z.packet rsNew 2] 1
     (by
       intro q hq
       simp only [List.mem_cons, List.mem_nil_iff, or_false] at hq
-      unfold FecHist.InWin
-      rcases hq with rfl | rfl | rfl | rfl <;> decide +kernel)).1 a0
-    [a0.packet rsNew 2, a3.packet rsNew 0, a0.packet rsNew 2] [] 0 fam0 a0_wf rfl rfl (by decide) rfl
+      unfold FecHist.InWrap FecHist.In4
+      rcases hq with rfl | rfl | rfl <;> decide +kernel)).1
+  have h := (C07_hist_no_forget_rsNew famW 2 1 (fresh rsNew 2 1) rfl
+    [z.packet rsNew 0, a0.packet rsNew 0, z.packet rsNew 2] hgen hW).1 z
+    [z.packet rsNew 0, a0.packet rsNew 0] [] 2 famWz z_wf rfl rfl (by decide) rfl
     (by decide +kernel) (by decide +kernel)
   rw [h]; decide +kernel
 
